@@ -1,13 +1,13 @@
 SPEC = {
     "id": "C18",
-    "n": {"quick": 800, "thorough": 12000},
+    "n": {"quick": 800, "thorough": 40000},
     "components": {
         "k*10+1": "send k: accepted / rejected (or the rejecting phase: graphql.Parse vs PrepareQuery) differs",
         "k*10+2": "send k: value that reached the resolver differs from the model's parse result",
         "k*10+3": "send k: number of resolver calls differs from the two-phase machine (1 after Ok, 0 after a rejection)",
     },
     "corr_name": "Args.Model (vtj, apply_defaults, parse, prepare) vs graphql.Parse / PrepareQuery / Execute with reflect-built argument structs",
-    "coq_modules": ["Args.Model", "Args.Spec", "Args.Proofs", "Args.ProofsReject", "Args.ProofsInst", "Gen.ArgParsers", "Args.Table"],
+    "coq_modules": ["Args.Model", "Args.Spec", "Args.Proofs", "Args.ProofsReject", "Args.ProofsInst", "Args.ProofsSubst", "Gen.ArgParsers", "Args.Table"],
     "harness_timeout": {"quick": 600, "thorough": 3000},
     "trusted_base": [
         "Coq 8.16.1 kernel and vm_compute (no native_compute); Print Assumptions: closed under the global context",
